@@ -16,7 +16,9 @@
 (* line, a plain str as field_comment): any outcome is accepted.  The      *)
 (* model continues from the OBSERVED world.  With IOEnv.KNOWN_BLANK = "1"  *)
 (* an event only the as-built comment rule explains (open finding          *)
-(* X17-blank-comment-line) is accepted with a REJECT note.                 *)
+(* X17-blank-comment-line) is accepted with a REJECT note; an event in     *)
+(* which a kept comment lives on in a NEW element object (variant "C": not *)
+(* promised either way) is accepted with a note (diagnostic).              *)
 (***************************************************************************)
 EXTENDS FieldComment, Json, IOUtils, TLCExt
 
@@ -55,6 +57,7 @@ TStep == /\ l <= Len(Tr.events)
          /\ LET e == Tr.events[l] IN
             /\ IF e.unspec \/ ~InDom(tw, e) THEN TRUE
                ELSE IF Match(Apply(tw, e, "S"), e) \/ Match(Apply(tw, e, "A"), e) THEN TRUE
+               ELSE IF Match(Apply(tw, e, "C"), e) THEN PrintT(<<"REJECT", tid, "kept-comment-copied", l>>)
                ELSE IF Known /\ Match(Apply(tw, e, "K"), e) THEN PrintT(<<"REJECT", tid, "X17-blank-comment-line", l>>)
                ELSE FALSE
             /\ tw' = e.obs
@@ -62,7 +65,6 @@ TStep == /\ l <= Len(Tr.events)
          /\ IF Diag THEN PrintT(<<"AT", tid, l>>) ELSE TRUE
          /\ IF l' = Len(Tr.events) + 1 THEN PrintT(<<"ACCEPTED", tid>>) ELSE TRUE
 TSpec == TInit /\ [][TStep]_tvars
-\* along every observed execution: an element object is in one place, every comment line is well formed
-TOwnership == Ownership(tw)
-TLinesWF   == LinesWF(tw)
+\* (Ownership / LinesWF of the observed worlds are implied: every observed world equals a world the outcome
+\* operators produce; they are not configured as invariants because corrupted control traces violate them by design)
 =============================================================================
